@@ -61,7 +61,7 @@ def softmax(z, axis=-1):
             'bias': st.booleans(), 'mask': st.sampled_from(
                 ['none', 'random', 'causal']),
             'seed': st.integers(0, 2**16)}),
-        quick=240, thorough=20000, quick_shards=8, x64=True,
+        quick=160, thorough=20000, quick_shards=8, x64=True,
         rule='dot_product_attention_weights / dot_product_attention for batch '
         'shapes of rank 0-2, 1-3 heads, query/key lengths 1-5, optional bias, '
         'random / causal masks with >=1 allowed key per query: weights equal '
@@ -265,7 +265,7 @@ def rnn_case():
       'bidir': st.booleans(), 'seed': st.integers(0, 2**16)})
 
 
-@clause('rnn_vs_loop', strategy=rnn_case, quick=96, thorough=6000,
+@clause('rnn_vs_loop', strategy=rnn_case, quick=80, thorough=6000,
         quick_shards=16, thorough_shards=16, x64=True, shrink=False,
         rule='every cell type (LSTM, OptimizedLSTM, GRU, Simple, MGU, '
         'ConvLSTM) x reverse x keep_order x time_major x seq_lengths in [1,T] '
@@ -386,7 +386,7 @@ def sig(z):
             'cell': st.sampled_from(['lstm', 'gru', 'simple', 'mgu']),
             'hid': st.integers(1, 4), 'feat': st.integers(1, 4),
             'B': st.integers(1, 3), 'seed': st.integers(0, 2**16)}),
-        quick=300, thorough=10000, quick_shards=6, x64=True, shrink=False,
+        quick=200, thorough=10000, quick_shards=4, x64=True, shrink=False,
         rule='one step of LSTMCell / GRUCell / SimpleCell / MGUCell with '
         'random parameters and carries vs a NumPy implementation of the '
         'documented recurrence; Linen LSTMCell vs nnx.LSTMCell on copied '
